@@ -304,6 +304,13 @@ func c16Durations(e *core.Env) int64 {
 			"", "h", "m", "hm", "1", "1h1", "1m1h", "1h1h", "1m1m", "1.5h", "1,5h", "1 h", "1h 5m", "1H", "1M", "1h5", "5m1", "1hm", "h1m", "1h-5m", "1h+5m", "--1h", "+-1h", "1h60m", "0h60m", "2h99m", "١h", "1hh", "1mm", "1d", "1s", " 1h", "1h ", "1h\t", "1h5m!"} {
 			check(sign + v)
 		}
+		// the hour and minute parts are integers: any number of leading zeros leaves the amount unchanged
+		for z := 1; z <= 40; z++ {
+			pad := strings.Repeat("0", z)
+			for _, v := range []string{pad + "8h", pad + "h", pad + "m", pad + "90m", "1h" + pad + "59m", pad + "7h" + pad + "5m", pad + "120h", "2h" + pad + "m", "2h" + pad + "60m"} {
+				check(sign + v)
+			}
+		}
 	}
 	// equivalence classes of the specification
 	eqT := func(a, b string) {
